@@ -145,8 +145,18 @@ public:
             m_op = new SVDWideMatOp<Scalar, MatrixType>(mat);
         }
 
-        // Solver object
-        m_eigs = new SymEigsSolver<SVDMatOp<Scalar>>(*m_op, ncomp, ncv);
+        // Solver object. Its constructor throws if (ncomp, ncv) is out of range, and the
+        // destructor of a partially constructed object is not called, so m_op has to be
+        // released here
+        try
+        {
+            m_eigs = new SymEigsSolver<SVDMatOp<Scalar>>(*m_op, ncomp, ncv);
+        }
+        catch (...)
+        {
+            delete m_op;
+            throw;
+        }
     }
 
     // Destructor
